@@ -222,13 +222,15 @@ def run_roundtrip(prop, ver, tier):
     cases = []
     # (a) CIFs parsed from CifDoc documents (every palette value / presentation / context)
     vids = sorted(PALETTE) if ver == 2 else [v for v, t in PALETTE.items() if all(ord(c) < 127 for c in t)]
-    out, st1, wd = run_doc_tlc("rt-base%d" % ver, 2, vids, ["sq", "tdq", "text", "textp", "bare"], ["sp", "eol"], CTX2 if ver == 2 else ["scalars", "frame", "loop1", "list"], ["eol"], 1 if tier == "quick" else 2)
+    out, st1, wd = run_doc_tlc("rt-base%d" % ver, 2, vids, ["sq", "tdq", "text", "textp", "bare"], ["sp", "eol"], CTX2 if ver == 2 else ["scalars", "frame", "loop1", "list"], ["eol"] if tier == "quick" else ["eol", "eof", "cmt"], 1)
     if not st1["ok"]:
         cleanup(wd); raise Infra("TLC failed (round-trip bases): " + st1.get("error", "")[:800])
     docs = [o for tag, o in iter_tlc_json(out, ("DOC",))]
     cleanup(wd)
-    if tier == "quick" and len(docs) > 1500:
-        rnd.shuffle(docs); docs = docs[:1500]
+    ndocs_generated = len(docs)
+    cap = 1500 if tier == "quick" else 12000
+    if len(docs) > cap:
+        rnd.shuffle(docs); docs = docs[:cap]
     for i, o in enumerate(docs):
         cases.append(("doc%d %s %s" % (i, o["ctx"], "+".join("%s/%s" % (s["v"], s["p"]) for s in o["slots"])), [{"op": "parse", "cif": "c", "text": render(o["d"]["doc"]), "errors": "accept"}]))
     # (b) descriptor strings placed through the API
@@ -297,7 +299,7 @@ def run_roundtrip(prop, ver, tier):
         semis = max([len(m) for m in re.findall(r";+", "\n".join(strings_in(build_cmds)))] or [0])
         texts = strings_in(build_cmds)
         lead_semi = any(l.startswith(";") for t in texts for l in t.split("\n"))
-        if 2039 <= longest <= 2049:
+        if 2028 <= longest <= 2049:
             cls = "near-limit line: "
         elif semis >= 2039:
             cls = "near-limit line: semicolon run: "
@@ -305,13 +307,17 @@ def run_roundtrip(prop, ver, tier):
             cls = "near-limit line: folded line that starts with a semicolon: "
         elif longest > 2049 and pos == "unquoted":
             cls = "near-limit line: long value marked unquoted: "
-        elif longest > 2040 and pos == "key":
+        elif longest > 2028 and pos == "key":
             cls = "near-limit line: table key longer than a line: "
         else:
             cls = ""
         if os.environ.get("VERIF_DEBUG_RT"):
             log("RTFAIL %s | %s" % (label, why[:60]))
-        rep.violation("%s%s [%s]" % (cls, re.sub(r"[0-9]+", "N", why)[:70], pos), "case %s (longest line %d): %s" % (label, longest, why),
+        # inside the classes of the open finding every failing case is named exactly (string shape @ position): the finding
+        # lists the cases that fail on the tree as given, anything else in the class is reported
+        wclass = why.split(" (")[0].split(" with ")[0] if cls else ""
+        sig = "%s%s: %s" % (cls, label, wclass) if cls and label.startswith("str:") else "%s%s [%s]" % (cls, re.sub(r"[0-9]+", "N", why)[:70], pos)
+        rep.violation(sig, "case %s (longest line %d): %s" % (label, longest, why),
                       {"build": build_cmds if len(json.dumps(build_cmds)) < 30000 else "(large)", "record": {k: v for k, v in r.items() if k not in ("orig", "re")},
                        "orig": r["orig"] if len(json.dumps(r["orig"])) < 6000 else "(large)", "reparsed": r["re"] if len(json.dumps(r["re"])) < 6000 else "(large)"})
     rep.samples = [{"case": owners[i][0], "write_rc": recs[i]["rc"], "maxline": recs[i]["maxline"], "reparse_rc": recs[i]["rrc"]} for i in (0, len(recs) // 2, len(recs) - 1)] if recs else []
